@@ -296,8 +296,10 @@ HLcreate(int32 file_id, uint16 tag, uint16 ref, int32 block_length, int32 number
     /* write the special info structure */
     if ((dd_aid = Hstartaccess(file_id, special_tag, ref, DFACC_ALL)) == FAIL)
         HGOTO_ERROR(DFE_CANTACCESS, FAIL);
-    if (Hwrite(dd_aid, 16, local_ptbuf) == FAIL)
+    if (Hwrite(dd_aid, 16, local_ptbuf) == FAIL) {
+        Hendaccess(dd_aid); /* the file cannot be closed while this id is attached */
         HGOTO_ERROR(DFE_WRITEERROR, FAIL);
+    }
     if (Hendaccess(dd_aid) == FAIL)
         HGOTO_ERROR(DFE_CANTENDACCESS, FAIL);
 
